@@ -111,3 +111,24 @@ Check (eq_refl : covered_by = fun l x => Exists (fun z => z_start z <= x < z_end
 Check (eq_refl : recs_sorted = fix recs_sorted (lo : N) (l : list zrec) : Prop :=
   match l with [] => True | z :: r => lo <= z_start z /\ z_start z < z_end z /\ recs_sorted (z_end z) r end).
 End PinC08.
+
+(* ---- the IEEE run is the exact run below 2^53 (appended; Proofs/FloatExactBed.v) ---- *)
+From BT Require Proofs.BedIeee Proofs.FloatExactBed.
+Module PinC08Float.
+Import Model.RTree Model.BBIFile Model.BigWigWrite Model.BedSweep Spec.Depth Proofs.DepthStats
+  Proofs.SweepRLE Proofs.BedSummary Proofs.BedTile Properties.C08.
+Local Open Scope N_scope.
+Check (C08_records_ieee : forall U ips size chrom es, 1 <= size -> valid_chrom U es ->
+  st_sumsq (depth es) (span 0 U) < BedIeee.P53 ->
+  bb_zoom_records ieee ips size chrom es = bb_zoom_records exact ips size chrom es).
+Check (C08_stats_ieee : forall U ips size chrom es secs, 1 <= size -> valid_zoom_chrom U es ->
+  st_sumsq (depth es) (span 0 U) < BedIeee.P53 ->
+  bb_zoom_records ieee ips size chrom es = Ok secs ->
+  bb_zoom_records exact ips size chrom es = Ok secs /\
+  let R := concat secs in
+  recs_sorted 0 R /\ Forall (zshape size chrom) R /\ Forall (zstats_spec (depth es)) R /\
+  (forall x, 0 < depth es x -> covered_by R x)).
+Check (eq_refl : BedIeee.P53 = 2 ^ 53).
+Check (eq_refl : valid_chrom = fun U es => U <= U32_MAX /\ Forall (entry_ok U) es /\ starts_sorted es).
+Check (eq_refl : zshape = fun size chrom z => z_end z - z_start z <= size /\ z_chrom z = chrom).
+End PinC08Float.
